@@ -230,6 +230,10 @@ def _mods(M):
         regroup=lambda: setattr(P[2], 'group', G[1]),
         create_empty_group_member=lambda: P(name='p4', age=5, group=G[3]),
         delete_group=lambda: G[3].delete(),
+        # taking out again, through the REVERSE side, an item that was added earlier in the same unflushed session
+        ungroup_p2=lambda: setattr(P[2], 'group', None),
+        delete_created=lambda: P.get(name='p3').delete(),
+        untag_via_reverse=lambda: T[2].persons.remove(P[1]),
     )
 
 
@@ -277,10 +281,13 @@ WARM = dict(
     load=lambda M: (list(M.Group[1].members), list(M.Tag[1].persons), list(M.Person[1].tags), list(M.Group[3].members)),
     is_empty=lambda M: (M.Group[1].members.is_empty(), M.Tag[2].persons.is_empty(), M.Group[3].members.is_empty()),
     query=lambda M: (M.Person.select()[:], orm.count(p for p in M.Person), orm.sum(p.age for p in M.Person)),
+    same_read=None,          # the read itself is executed once BEFORE the modifications (whatever it cached must not be served afterwards)
 )
-MOD_NAMES = ['create', 'update', 'rename', 'delete', 'move_in', 'move_out', 'tag_add', 'tag_remove', 'ungroup', 'regroup', 'create_empty_group_member', 'delete_group']
+MOD_NAMES = ['create', 'update', 'rename', 'delete', 'move_in', 'move_out', 'tag_add', 'tag_remove', 'ungroup', 'regroup', 'create_empty_group_member', 'delete_group',
+             'ungroup_p2', 'delete_created', 'untag_via_reverse']
 PAIRS = [('create', 'delete'), ('move_in', 'move_out'), ('tag_add', 'tag_remove'), ('update', 'move_out'), ('create', 'regroup'), ('ungroup', 'regroup'),
-         ('tag_remove', 'create'), ('delete', 'create_empty_group_member'), ('rename', 'create')]
+         ('tag_remove', 'create'), ('delete', 'create_empty_group_member'), ('rename', 'create'),
+         ('regroup', 'ungroup_p2'), ('create', 'delete_created'), ('tag_add', 'untag_via_reverse'), ('move_in', 'ungroup_p2')]
 
 
 def _dd_configs(tier):
@@ -300,7 +307,7 @@ def _dd_case(cfg, values):
         try:
             with orm.db_session:
                 for m in seq: mods[m]()
-        except (core.OperationalError, core.ObjectNotFound, core.ConstraintError) as e:      # not a meaningful script (e.g. modifies a deleted object)
+        except (core.OperationalError, core.ObjectNotFound, core.ConstraintError, AttributeError) as e:      # not a meaningful script (e.g. modifies a deleted object)
             st['want'], st['got'] = {}, {}
             _reset_data(M)
             return []
@@ -315,7 +322,10 @@ def _dd_case(cfg, values):
             _reset_data(M)
             try:
                 with orm.db_session:
-                    WARM[cfg['warm']](M)
+                    if cfg['warm'] == 'same_read':
+                        try: rd()
+                        except Exception: pass
+                    else: WARM[cfg['warm']](M)
                     for m in seq: mods[m]()
                     try: got[name] = rd()
                     except Exception as e: got[name] = ('exc', type(e).__name__)
@@ -344,5 +354,5 @@ CONTRACTS = [
                                                 'pony.orm.core:SetInstance.is_empty', 'pony.orm.core:SetInstance.__contains__', 'pony.orm.core:SetInstance.__len__',
                                                 'pony.orm.core:Query._actual_fetch', 'pony.orm.core:Query._aggregate', 'pony.orm.core:Entity.to_dict'],
              _dd_configs, _dd_case, [('same_answer_as_a_new_session_after_commit', _dd_spec)], level='bounded',
-             bound='3 entities (1-n and n-n), 12 single modifications + pairs, 5 warm-up states, 29 reads'),
+             bound='3 entities (1-n and n-n), 15 single modifications + pairs, 6 warm-up states, 29 reads'),
 ]
